@@ -778,6 +778,16 @@ def w4(e: Engine, rep: Report):
         if pfn is not None and fr.ctx.func is pfn:
             pframe = fr
     heads = common.while_heads(g, pframe)
+    split = None
+    if pframe is not g.entry.frame and len(heads) == 1:
+        # the scanning loop in a helper, the reading loop in recv_reply
+        oh = common.while_heads(g, g.entry.frame)
+        if len(oh) == 1 and any(
+                sc.kind == 'loop' and sc.ast is oh[0][1]
+                for n0 in g.nodes if n0.frame is pframe
+                for sc in n0.scopes):
+            split = (heads[0], oh[0])
+            heads = [heads[0], oh[0]]
     if len(heads) == 1:
         # one loop that takes a line off the front of the buffer per trip:
         # every trip either reads more input or consumes a whole, non-empty
@@ -836,7 +846,8 @@ def w4(e: Engine, rep: Report):
     for h, w in heads:
         names = {x.id for x in ast.walk(w.test) if isinstance(x, ast.Name)}
         nested = any(w is not w2 and any(x is w for x in ast.walk(w2))
-                     for _, w2 in heads)
+                     for _, w2 in heads) or (
+            split is not None and w is split[0][1])
         if nested:
             inner = (h, w, names)
         else:
@@ -846,6 +857,16 @@ def w4(e: Engine, rep: Report):
         return
     h, w, names = inner
     pos = sorted(names)[0] if names else None
+    if pos is None:
+        # `while True:` left by break / return: the scan position is what
+        # the matches in the loop start at
+        starts = {ast.unparse(x.args[1]) for x in ast.walk(w)
+                  if isinstance(x, ast.Call) and
+                  isinstance(x.func, ast.Attribute) and
+                  x.func.attr == 'match' and len(x.args) > 1 and
+                  isinstance(x.args[1], ast.Name)}
+        if len(starts) == 1:
+            pos = starts.pop()
     asg = [n for n in g.of_kind('stmt') if isinstance(n.ast, ast.Assign) and
            any(isinstance(t, ast.Name) and t.id == pos
                for t in n.ast.targets) and any(
@@ -894,7 +915,8 @@ def w4(e: Engine, rep: Report):
     reads = [n for n in g.calls() if e.call_name(n) == 'buffered_recv']
     flag = sorted(names)[0] if len(names) == 1 else None
     rep.evaluations += 1
-    if flag is None or not reads:
+    endless = isinstance(w.test, ast.Constant) and w.test.value is True
+    if (flag is None and not endless) or not reads:
         rep.error('anchor vanished: loop flag / buffered_recv of the outer '
                   'loop in recv_reply')
         return
